@@ -1160,6 +1160,13 @@ def single_consumer(ctx, B, rule="R10.5"):
     ctx.require(len(users) == 1 and users[0][0] is B.b0, rule, "single-consumer", "PriorityReceiver::recv is called only by the job task",
                 users[0][0].loc(users[0][1].line) if users else None,
                 fail="the control queues have %d consumers: %s" % (len(users), [u[0].def_ for u in users]))
+    # controls run to completion inside the handler: nothing is detached to run concurrently with later controls
+    for fn in (B.b1, B.b2):
+        sp = [t for _, t in fn.calls() if t.callee.is_("tokio::task::spawn::spawn", "tokio::task::spawn::spawn_local", "tokio::task::blocking::spawn_blocking",
+                                                       "tokio::runtime::handle::Handle::spawn")]
+        ctx.require(not sp, rule, "no-detached-work:" + fn.def_.split("::")[-1], "handlers run each control to completion inline (no spawned tasks)", fn.loc(fn.line),
+                    fail="the %s detaches work with tokio::spawn: later controls run concurrently with an earlier one, so awaiting the last ticket no "
+                         "longer implies the earlier controls have finished" % ("control handler" if fn is B.b2 else "process-end handler"))
     # nothing re-queues inside the handlers
     for fn in (B.b1, B.b2):
         re_q = [t for _, t in fn.calls() if t.callee.is_("PrioritySender::send", "UnboundedSender::send")]
